@@ -7,6 +7,7 @@ package tsm1
 import (
 	"fmt"
 	"os"
+	"strings"
 	"testing"
 
 	"verifkit"
@@ -42,8 +43,9 @@ func TestVerifC10KFPiecewiseDelete(t *testing.T) {
 		}
 		b.lingerOK = nil
 		sig, msg := vC10Listings(b)
+		t.Logf("%s: points=%d listing sig=%q msg=%q", idx, len(got), sig, msg)
 		stats.Case(true, fmt.Sprintf("%s points=%d listing=%s", idx, len(got), sig), "directed")
-		if len(got) == 0 && sig == "emptied-series-still-listed" {
+		if len(got) == 0 && strings.HasPrefix(sig, "emptied-") {
 			stats.KnownReproduced("series-lingers-after-piecewise-time-range-deletes", idx+": "+msg)
 		}
 		b.close()
